@@ -21,7 +21,7 @@ type concCase struct {
 	class   int
 	args    [][2]int8 // per coroutine
 	iters   int
-	probes  [][2]int8 // (member, value kind), same order for every coroutine
+	probes  [][2]int8 // (member, value kind), same order for every coroutine; member >= peerBase: peer member written from inside a method of an instance with the next coroutine's arguments
 	procs   int       // GOMAXPROCS
 	seedTag string
 }
@@ -34,6 +34,22 @@ func (c concCase) String() string {
 	}
 	return fmt.Sprintf("coroutines {%s} x %d iterations, %d probes each, GOMAXPROCS=%d", strings.Join(a, " | "), c.iters, len(c.probes), c.procs)
 }
+
+const peerBase = 64
+
+// probe resolves a probe's member to (property, via, peer?).
+func (c concCase) probe(m int8) (p int, via string, peer bool) {
+	cs := classes[c.class]
+	if m >= peerBase {
+		p, via, _ = cs.peerMember(int(m - peerBase))
+		return p, via, true
+	}
+	p, via = cs.member(int(m))
+	return p, via, false
+}
+
+// actorOf is the coroutine whose arguments the peer actor of coroutine w is created with.
+func (c concCase) actorOf(w int) int { return (c.fnOf(w) + 1) % len(c.args) }
 
 // fnOf is the coroutine whose worker function coroutine w runs: the first one with the
 // same arguments.
@@ -73,6 +89,7 @@ func (c concCase) script() string {
 	// monomorphic control: the message of a plain typed-property rejection, used to tell a
 	// type rejection from any other error a probe might raise
 	sb.WriteString("class Mono { public int $v; public int $k; }\n")
+	sb.WriteString(parents) // what the heritage shapes derive from; must precede the class
 	sb.WriteString(cs.decl(""))
 	sb.WriteString(`function calib($prop, $cls) {
   $m = new Mono(); $t = "";
@@ -92,6 +109,14 @@ func (c concCase) script() string {
 		}
 		fmt.Fprintf(&sb, "function pw%d($o, $val, $want) { try { %s return \"A\"; } catch (\\Throwable $e) { if ($e->getMessage() == $want) { return \"R\"; }%s return \"X(\" . $e->getMessage() . \")\"; } }\n", m, stmt, also)
 	}
+	for m := 0; m < cs.nPeerMembers(); m++ {
+		_, via, am := cs.peerMember(m)
+		also := ""
+		if paramRejectPrefix != "" && via != "poke" {
+			also = fmt.Sprintf(" if (str_starts_with($e->getMessage(), %s)) { return \"P\"; }", phpString(paramRejectPrefix))
+		}
+		fmt.Fprintf(&sb, "function pp%d($a, $o, $val, $want) { try { $a->%s($o, $val); return \"A\"; } catch (\\Throwable $e) { if ($e->getMessage() == $want) { return \"R\"; }%s return \"X(\" . $e->getMessage() . \")\"; } }\n", m, am, also)
+	}
 	for w, a := range c.args {
 		if c.fnOf(w) != w {
 			continue // same arguments as an earlier coroutine: it runs that coroutine's function (and `new` node)
@@ -99,12 +124,18 @@ func (c concCase) script() string {
 		// the instantiation is the first thing a coroutine does, so that coroutines running the
 		// same function reach the same `new` node for the first time together
 		fmt.Fprintf(&sb, "function mk%d() { return new %s<%s>(); }\n", w, cs.name, argList(cs, a))
-		fmt.Fprintf(&sb, "function work%d($ch, $n, $want, $id) {\n  $o = mk%d();\n  $r = \"\"; $i = 0;\n  while ($i < $n) {\n", w, w)
+		// the peer actor: an instance with the next coroutine's arguments, private to this coroutine
+		fmt.Fprintf(&sb, "function mka%d() { return new %s<%s>(); }\n", w, cs.name, argList(cs, c.args[c.actorOf(w)]))
+		fmt.Fprintf(&sb, "function work%d($ch, $n, $want, $id) {\n  $o = mk%d(); $a = mka%d();\n  $r = \"\"; $i = 0;\n  while ($i < $n) {\n", w, w, w)
 		for _, pr := range c.probes {
-			p, _ := cs.member(int(pr[0]))
-			fmt.Fprintf(&sb, "    $r = $r . pw%d($o, %s, $want[%d]);\n", pr[0], concLiteral(pr[1]), p)
+			p, _, peer := c.probe(pr[0])
+			if peer {
+				fmt.Fprintf(&sb, "    $r = $r . pp%d($a, $o, %s, $want[%d]);\n", pr[0]-peerBase, concLiteral(pr[1]), p)
+			} else {
+				fmt.Fprintf(&sb, "    $r = $r . pw%d($o, %s, $want[%d]);\n", pr[0], concLiteral(pr[1]), p)
+			}
 		}
-		fmt.Fprintf(&sb, "    $r = $r . \";\"; $i = $i + 1; $o = mk%d();\n  }\n  $ch->send($id . \" \" . $r);\n}\n", w)
+		fmt.Fprintf(&sb, "    $r = $r . \";\"; $i = $i + 1; $o = mk%d(); $a = mka%d();\n  }\n  $ch->send($id . \" \" . $r);\n}\n", w, w)
 		fmt.Fprintf(&sb, "function start%d($ch, $n, $want, $id) { spawn(function() use ($ch, $n, $want, $id) { work%d($ch, $n, $want, $id); }); }\n", w, w)
 	}
 	sb.WriteString("$want = [];\n")
@@ -129,6 +160,9 @@ func genConcCase(r *rand.Rand, race bool) concCase {
 	c := concCase{class: cBox}
 	if r.Intn(3) == 0 {
 		c.class = cPair
+	}
+	if r.Intn(3) != 0 {
+		c.class += nBases * r.Intn(nShapes) // members public/protected/private x heritage
 	}
 	cs := classes[c.class]
 	k := 2 + r.Intn(3)
@@ -162,9 +196,14 @@ func genConcCase(r *rand.Rand, race bool) concCase {
 		}
 		c.iters = 1 + r.Intn(2)
 	}
-	for m := 0; m < cs.nMembers(); m++ {
+	for _, m := range cs.topMembers(true) {
 		for v := 0; v < nValsCore; v++ {
 			c.probes = append(c.probes, [2]int8{int8(m), int8(v)})
+		}
+	}
+	for m := 0; m < cs.nPeerMembers(); m++ {
+		for v := 0; v < nValsCore; v++ {
+			c.probes = append(c.probes, [2]int8{int8(peerBase + m), int8(v)})
 		}
 	}
 	r.Shuffle(len(c.probes), func(i, j int) { c.probes[i], c.probes[j] = c.probes[j], c.probes[i] })
@@ -222,19 +261,22 @@ func (d *driver) evalConc(c concCase, stdout string, src string) (ok bool) {
 				return false
 			}
 			for pi, pr := range c.probes {
-				p, via := cs.member(int(pr[0]))
+				p, via, peer := c.probe(pr[0])
 				own := a[p]
-				exp := accepts(own, pr[1])
+				exp := accepts(own, pr[1]) // the target's own argument decides, also for writes made by the peer actor
 				obs := letters[pi] == 'A'
 				if obs == exp {
 					continue
+				}
+				if peer {
+					via += "/actor=" + typeNames[c.args[c.actorOf(w)][p]]
 				}
 				// 'P': rejected by a parameter declaration. Explained by the shared declaration
 				// having been bound through another coroutine's instance?
 				byParam := letters[pi] == 'P' || via == "param"
 				as := int8(-1)
 				for u, b := range c.args {
-					if !byParam && u != w && b[p] != own && accepts(b[p], pr[1]) == obs {
+					if !byParam && !peer && u != w && b[p] != own && accepts(b[p], pr[1]) == obs {
 						if as < 0 || b[p] < as {
 							as = b[p]
 						}
